@@ -340,9 +340,13 @@ def map_case(rec, rng, cid, scratch):
                 elif op == "refit-other":
                     if recorded:
                         idnt.apply_preprocessing(pipe)
+                    # (other model, other weighting, and a geometrical
+                    #  correction factor: the reported contact point stays
+                    #  in measured units)
                     idnt.fit_model(model_key="hertz_cone",
                                    range_type="absolute", range_x=[0, 0],
-                                   weight_cp=float(rng.choice([0, 3e-7])))
+                                   weight_cp=float(rng.choice([0, 3e-7])),
+                                   gcf_k=float(rng.choice([1.0, .5, 2.0])))
                 elif op == "failing-multi-pass-fit":
                     # first pass succeeds, later passes select no points:
                     # the current fit is unsuccessful
@@ -372,7 +376,7 @@ def map_case(rec, rng, cid, scratch):
             p0 = gen.nanite_params("hertz_para")
             p0["E"].value = .7 * e_of.get(idnt.enum, p0["E"].value)
             idnt.fit_model(model_key="hertz_para", weight_cp=0,
-                           params_initial=p0,
+                           params_initial=p0, gcf_k=1.0,
                            range_type="absolute", range_x=[0, 0])
         m = qm.get_qmap("fit: Young's modulus", qmap_only=True)
         exp = np.full((nys, nxs), np.nan)
